@@ -34,6 +34,10 @@ FAM = {
     "utils/runeint.go": ["ean", "tof", "pdf", "st.ean", "st.pdf.hl"],
 }
 CAP = {"codabar": 6000, "tof": 6000, "tofcs": 3000, "c39": 8000, "c93": 8000, "c128": 6000, "c128nc": 4000, "bl": 8000}
+if os.environ.get("MUT_NOCAP"):
+    CAP = {}
+IDS = set(os.environ.get("MUT_IDS", "").split(",")) - {""}
+TIER = os.environ.get("MUT_TIER", "quick")
 
 def kind(op):
     t = op.split(" ")
@@ -47,7 +51,7 @@ def main():
     assert sh(["go", "build", "-tags", "verif", "-o", harness, "./cmd/harness"], cwd=os.path.join(V, "go")).returncode == 0
     ops, seen = [], set()
     for p in PROPS:
-        for l in sh([harness, "gen", p, "quick", "1"]).stdout.split("\n"):
+        for l in sh([harness, "gen", p, TIER, "1"]).stdout.split("\n"):
             if l and l not in seen:
                 seen.add(l); ops.append(l)
     # cap the huge exhaustive 1-D streams (every k-th op)
@@ -61,7 +65,7 @@ def main():
     golden = dict(zip(ops, sh([harness, "run"], inp="\n".join(ops) + "\n").stdout.split("\n")))
     print("ops", len(ops), flush=True)
     muts = [l.split("\t") for l in sh([mutate, "list", "/repo"]).stdout.split("\n") if l]
-    muts = [m for m in muts if FILT in m[1]][:MAX]
+    muts = [m for m in muts if FILT in m[1] and (not IDS or m[0] in IDS)][:MAX]
     print("mutants", len(muts), flush=True)
     # worker trees
     for i in range(NW):
